@@ -168,10 +168,16 @@ def r_scan(body):
             out["retired_extents"] = l
     for n in _calls(body, "DiskIO::read_allocation_journal"):
         pass
-    aj = by_type(body, r"^std::vec::Vec<\(u64, usize\)>$")
-    for l in aj:
-        if l != out.get("retired_extents"):
+    for n in _calls(body, "DiskIO::replay_allocation_journal"):
+        l = recv_local(body, n, 1)
+        if l is not None:
             out["allocation_journal"] = l
+    if "allocation_journal" not in out:
+        aj = by_type(body, r"^std::vec::Vec<\(u64, usize\)>$")
+        for l in aj:
+            # `val` / `residual` are the bindings of the `?` desugaring, not source variables
+            if l != out.get("retired_extents") and body.local_name(l) not in ("val", "residual"):
+                out["allocation_journal"] = l
     rt = by_type(body, r"^std::option::Option<u64>$")
     for l in rt:
         ds = body.defs.get(l, [])
